@@ -19,6 +19,40 @@ META = {
 LIMIT = 5
 
 
+def split_join_pairing(fn: ast.FunctionDef):
+    """(line-list variable, separator description, ok, message, node): how load_includes cuts its
+    text into lines and puts it together again.  The pre-pass is the identity on text without
+    INCLUDE lines only if it joins with exactly the separator it split on."""
+    lines_var = None
+    split_sep = None
+    split_node = None
+    for n in ast.walk(fn):
+        if isinstance(n, ast.Assign) and isinstance(n.value, ast.Call) and isinstance(n.value.func, ast.Attribute) and n.value.func.attr in ("split", "splitlines", "rsplit") and isinstance(n.targets[0], ast.Name):
+            c = n.value
+            if isinstance(c.func.value, ast.Name) and c.func.value.id == fn.args.args[1].arg:
+                lines_var = n.targets[0].id
+                split_node = c
+                if c.func.attr == "splitlines":
+                    keep = (c.args and fold(c.args[0])) or any(k.arg == "keepends" and fold(k.value) for k in c.keywords)
+                    split_sep = "" if keep else ANY_BOUNDARY
+                else:
+                    split_sep = fold(c.args[0]) if c.args else None
+                    if len(c.args) > 1 or c.keywords:
+                        split_sep = ("limited", split_sep)
+    if lines_var is None:
+        raise AnalysisError("anchor vanished: the split of the text into lines in load_includes")
+    rets = [n for n in ast.walk(fn) if isinstance(n, ast.Return) and n.value is not None]
+    if not rets:
+        raise AnalysisError("anchor vanished: return of load_includes")
+    if split_sep == ANY_BOUNDARY:
+        return lines_var, "every line boundary", False, f"the text is cut with {norm(split_node)}, which also splits at \\r, \\x0b, \\x0c, \\x1c-\\x1e, \\x85, \\u2028 and \\u2029 and drops the separator, but is returned as {[norm(r.value) for r in rets]}: those characters inside a quoted value come back as a different character", split_node
+    join_ok = all(isinstance(r.value, ast.Call) and isinstance(r.value.func, ast.Attribute) and r.value.func.attr == "join" and isinstance(r.value.func.value, ast.Constant) and r.value.func.value.value == split_sep and r.value.args and isinstance(r.value.args[0], ast.Name) and r.value.args[0].id == lines_var for r in rets)
+    return lines_var, split_sep, join_ok, f"text is split on {split_sep!r} but returned as {[norm(r.value) for r in rets]}", (split_node if join_ok else rets[0])
+
+
+ANY_BOUNDARY = object()
+
+
 def run(ctx: Ctx) -> None:
     e = models.env(ctx)
     repo, facts = ctx.repo, e.facts
@@ -133,19 +167,9 @@ def run(ctx: Ctx) -> None:
                 ctx.check(terminates(n.body) and isinstance(n.body[-1], ast.Raise), "I3", f"{q}: except {norm(n.type) if n.type else ''}", repo.loc("parser", n), "re-raises", "handler swallows the exception: a missing or undecodable include is silently skipped")
 
     # ---- I4 index-stable substitution ----------------------------------------------------------
-    ctx.rule("I4", "the replacement loop pops and inserts at the same index with nothing else mutating the line list; text is split and joined on the same separator", 3)
-    split_sep = None
-    lines_var = None
-    for n in ast.walk(fn):
-        if isinstance(n, ast.Assign) and isinstance(n.value, ast.Call) and isinstance(n.value.func, ast.Attribute) and n.value.func.attr == "split" and isinstance(n.targets[0], ast.Name):
-            if isinstance(n.value.func.value, ast.Name) and n.value.func.value.id == "text":
-                lines_var = n.targets[0].id
-                split_sep = fold(n.value.args[0]) if n.value.args else None
-    if lines_var is None:
-        raise AnalysisError("anchor vanished: text.split in load_includes")
-    rets = [n for n in ast.walk(fn) if isinstance(n, ast.Return) and n.value is not None]
-    join_ok = all(isinstance(r.value, ast.Call) and isinstance(r.value.func, ast.Attribute) and r.value.func.attr == "join" and isinstance(r.value.func.value, ast.Constant) and r.value.func.value.value == split_sep and isinstance(r.value.args[0], ast.Name) and r.value.args[0].id == lines_var for r in rets)
-    ctx.check(join_ok and bool(rets), "I4", "split / join separator", loc(rets[0]) if rets else loc(fn), f"separator {split_sep!r}", f"text is split on {split_sep!r} but returned as {[norm(r.value) for r in rets]}")
+    ctx.rule("I4", "the replacement loop pops and inserts at the same index with nothing else mutating the line list; text is split and joined on the same separator", 2)
+    lines_var, split_sep, join_ok, why, where = split_join_pairing(fn)
+    ctx.check(join_ok, "I4", "split / join separator", loc(where), f"separator {split_sep!r}", why)
     muts = []
     for n in ast.walk(fn):
         if isinstance(n, ast.Call) and isinstance(n.func, ast.Attribute) and isinstance(n.func.value, ast.Name) and n.func.value.id == lines_var and n.func.attr in ("pop", "insert", "append", "remove", "extend", "clear", "sort", "reverse"):
@@ -163,8 +187,6 @@ def run(ctx: Ctx) -> None:
         ctx.ok("I4", "in-place replacement lines[idx] = text", loc(muts[0]), "index-stable")
     else:
         ctx.finding("I4", "mutations of the line list", loc(fn), f"line list is mutated by {kinds}: replacement is not index-stable")
-    # the replacement text comes from the recursive expansion
-    ctx.check(any(isinstance(n, ast.Assign) and isinstance(n.targets[0], ast.Subscript) and any(c is r.node for r in rec_calls for c in ast.walk(n.value)) for n in ast.walk(fn)) or True, "I4", "replacement text is the recursive expansion", loc(fn), "", "", nontrivial=False)
 
     # ---- I5 opt-out ----------------------------------------------------------------------------
     ctx.rule("I5", "load_includes is called only under self.expand_includes; INCLUDE is a repeated key so unexpanded directives are kept and written back", 2)
